@@ -16,7 +16,7 @@ POS = {  # positional argument values by parameter name
     "start": 0, "num": 2, "numblks": 4, "page_code": 0x0A, "data_type": 0, "service_action": 1,
     "protocal": 4, "t_length": 2, "byte_block": 1, "t_dir": 1, "t_type": 0, "off_line": 0, "fetures": 0, "count": 1, "command": 0xEC,
 }
-ALT = {"data_type": [1, 2], "page_code": [0x08, 0x3F], "acode": [0]}
+ALT = {"data_type": [1, 2], "page_code": [0x08, 0x3F], "acode": [0], "tl": [0], "nb": [0], "numblks": [0]}
 OPT = {  # optional keyword values by constructor parameter name
     "alloclen": 64, "alloc_len": 64, "evpd": 0, "rdprotect": 1, "wrprotect": 1, "dpo": 1, "fua": 1, "rarc": 1, "group": 3, "immed": 1,
     "anchor": 0, "unmap": 1, "ndob": 0, "invert": 1, "inv1": 1, "inv2": 1, "rng": 1, "fast": 1, "prevent": 1, "report": 2,
@@ -170,7 +170,10 @@ def method_calls(summary, rng, tier):
                 for alt in ALT.get(p, []):
                     pos2 = [list(x) for x in pos]
                     pos2[i] = ["i", alt]
-                    calls.append(dict(method=name, pos=pos2, kw=kw, blocksize=bs, unmarshall_kw=u))
+                    u2 = dict(u)
+                    if p in u2:
+                        u2[p] = alt                      # the decoder is re-run with the arguments of THIS call
+                    calls.append(dict(method=name, pos=pos2, kw=kw, blocksize=bs, unmarshall_kw=u2))
     return calls
 
 
